@@ -974,7 +974,7 @@ func permList(maxN int) [][]int {
 func Run(c *fw.Ctx) {
 	/* (1) every pivot order: A = P (D + delta N) for every permutation P */
 	perms := permList(c.N(4, 6))
-	reps := 2
+	reps := c.N(8, 8)
 	c.Cases("pivot", len(perms)*len(types)*2*reps, func(cs *fw.Case) {
 		k := cs.Index
 		routine := k % 2
@@ -997,7 +997,7 @@ func Run(c *fw.Ctx) {
 	})
 
 	/* (2) matrixInverse: structures x options x types, in-situ buffers reused across calls */
-	c.Cases("inverse", c.N(2400, 60000), func(cs *fw.Case) {
+	c.Cases("inverse", c.N(9600, 240000), func(cs *fw.Case) {
 		r := cs.R
 		t := types[cs.Index%len(types)]
 		structure := structures[(cs.Index/len(types))%len(structures)]
@@ -1023,6 +1023,15 @@ func Run(c *fw.Ctx) {
 		failedBefore := false
 		for call := 0; call < ncalls; call++ {
 			A := genMatrix(structure, n, t, r)
+			if is != nil && structure != "integer" {
+				// differently scaled inputs in the same buffers (kappa is scale-invariant):
+				// what an earlier call leaves behind must not leak into a later result
+				sc := []float64{1e-6, 1e-3, 1, 1, 1e3}[r.Intn(5)]
+				for i := range A.A {
+					A.A[i] *= sc
+				}
+				cs.Cover(fmt.Sprintf("insitu:scale=%g", sc))
+			}
 			if is != nil && call == 1 && ncalls == 3 && r.Chance(0.5) {
 				// a rejected (singular) call in between must not poison the buffers
 				sing := makeSingular(singularKinds[r.Intn(3)], A, r, o.PD, o.UT)
@@ -1047,7 +1056,7 @@ func Run(c *fw.Ctx) {
 	})
 
 	/* (3) gaussJordan.Run(a, x = I, b) */
-	c.Cases("solve", c.N(1600, 40000), func(cs *fw.Case) {
+	c.Cases("solve", c.N(6400, 160000), func(cs *fw.Case) {
 		r := cs.R
 		t := types[cs.Index%len(types)]
 		structure := structures[(cs.Index/len(types))%len(structures)]
@@ -1064,7 +1073,7 @@ func Run(c *fw.Ctx) {
 	})
 
 	/* (4) backSubstitution */
-	c.Cases("backsub", c.N(800, 20000), func(cs *fw.Case) {
+	c.Cases("backsub", c.N(3200, 80000), func(cs *fw.Case) {
 		r := cs.R
 		t := types[cs.Index%len(types)]
 		n := 1 + (cs.Index/len(types))%7
@@ -1153,7 +1162,7 @@ func Run(c *fw.Ctx) {
 	})
 
 	/* (5) determinant */
-	c.Cases("det", c.N(1400, 30000), func(cs *fw.Case) {
+	c.Cases("det", c.N(5600, 120000), func(cs *fw.Case) {
 		r := cs.R
 		t := types[cs.Index%len(types)]
 		structure := structures[(cs.Index/len(types))%len(structures)]
@@ -1219,7 +1228,7 @@ func Run(c *fw.Ctx) {
 	})
 
 	/* (6) structurally singular inputs */
-	c.Cases("singular", c.N(1200, 24000), func(cs *fw.Case) {
+	c.Cases("singular", c.N(4800, 96000), func(cs *fw.Case) {
 		r := cs.R
 		t := types[cs.Index%len(types)]
 		kind := singularKinds[(cs.Index/len(types))%len(singularKinds)]
